@@ -8,7 +8,8 @@
            for future in futures: future.result()          # re-raises the exception of the first listed task that failed
            return result
        else:
-           return TensorDictFuture(futures, result)        # .result(): concurrent.futures.wait(self.futures), nothing else
+           return TensorDictFuture(futures, result)        # .result(): wait(self.futures); for f in self.futures: f.result()
+                                                           # (before the D110 repair: the wait and nothing else)
    The walk hands ONE list down (`futures=futures`) through TensorDict / lazy stack / NonTensorStack nodes, so what is
    appended anywhere below is in the caller's list.  The tensorclass `_memmap_` (tensorclass.py) is the one place where the
    list is re-plumbed:
@@ -71,9 +72,10 @@ Definition spawned (sub : list (task * bool)) : list task := map fst sub.
 Definition collected (sub : list (task * bool)) : list task := map fst (filter snd sub).
 
 (* ---- what the call returns ----
-   fixed_D110 = false: TensorDictFuture.result() only waits (finding D110); true: it inspects its futures like the
-   entry points do.  ONE definition to flip when /repo changes side. *)
-Definition fixed_D110 : bool := false.
+   fixed_D110 = false: TensorDictFuture.result() only waits (finding D110, before fixes/C10/D110.diff); true: it inspects
+   its futures like the entry points do (`for future in self.futures: future.result()`).  ONE definition to flip when
+   /repo changes side; /repo carries the repair. *)
+Definition fixed_D110 : bool := true.
 
 (* sub: the submitted tasks (obstacles applied) with their collected flag; ts': the order they completed in *)
 Definition call_result (inspects : bool) (sub : list (task * bool)) (s : state) (ts' : list task) : res state :=
